@@ -3,7 +3,7 @@
 cd /verif
 rc=0
 for i in $(seq -w 1 20); do
-  out=$(timeout 1500 /venv/bin/python -m mc.run C$i --tier ${1:-quick} 2>&1); s=$?
+  out=$(timeout $([ "${1:-quick}" = thorough ] && echo 7200 || echo 1500) /venv/bin/python -m mc.run C$i --tier ${1:-quick} 2>&1); s=$?
   echo "$out" | grep -E "^(VIOLATION|KNOWN-FINDING)" | cut -c1-160
   echo "$out" | tail -1 | sed "s/^/[exit $s] /"
   [ $s -ne 0 ] && rc=1
